@@ -2084,6 +2084,116 @@ impl Sessions {
     }
 }
 
+/// Verification hooks: a plain-data, read-only snapshot of a session (for the runtime
+/// monitors under /verif). Built under the `Matter` state lock, so it never observes
+/// a transient state.
+#[cfg(feature = "verif")]
+pub mod verif {
+    use super::*;
+
+    #[derive(Debug, Clone, PartialEq, Eq)]
+    pub struct VerifExchange {
+        pub index: usize,
+        pub exch_id: u16,
+        pub initiator: bool,
+        pub accept_pending: bool,
+        pub dropped: bool,
+        pub retrans_pending: bool,
+        pub retrans_ctr: Option<u32>,
+        pub ack_pending: bool,
+    }
+
+    #[derive(Debug, Clone, PartialEq, Eq)]
+    pub struct VerifSession {
+        pub id: u32,
+        pub peer_addr: Address,
+        pub local_nodeid: u64,
+        pub peer_nodeid: Option<u64>,
+        pub local_sess_id: u16,
+        pub peer_sess_id: u16,
+        pub mode: SessionMode,
+        pub reserved: bool,
+        pub expired: bool,
+        pub encrypted: bool,
+        pub msg_ctr: u32,
+        /// `Debug` rendering of the receive-window state
+        pub rx_ctr_state: std::string::String,
+        pub dec_key: [u8; crate::crypto::AEAD_CANON_KEY_LEN],
+        pub enc_key: [u8; crate::crypto::AEAD_CANON_KEY_LEN],
+        pub exchanges: std::vec::Vec<VerifExchange>,
+    }
+
+    impl Session {
+        pub fn verif_snapshot(&self) -> VerifSession {
+            let mut dec_key = [0; crate::crypto::AEAD_CANON_KEY_LEN];
+            dec_key.copy_from_slice(self.dec_key.reference().access());
+            let mut enc_key = [0; crate::crypto::AEAD_CANON_KEY_LEN];
+            enc_key.copy_from_slice(self.enc_key.reference().access());
+
+            VerifSession {
+                id: self.id,
+                peer_addr: self.peer_addr,
+                local_nodeid: self.local_nodeid,
+                peer_nodeid: self.peer_nodeid,
+                local_sess_id: self.local_sess_id,
+                peer_sess_id: self.peer_sess_id,
+                mode: self.mode.clone(),
+                reserved: self.reserved,
+                expired: self.expired,
+                encrypted: self.is_encrypted(),
+                msg_ctr: self.msg_ctr,
+                rx_ctr_state: std::format!("{:?}", self.rx_ctr_state),
+                dec_key,
+                enc_key,
+                exchanges: self
+                    .exchanges
+                    .iter()
+                    .enumerate()
+                    .filter_map(|(index, e)| {
+                        e.as_ref().map(|e| VerifExchange {
+                            index,
+                            exch_id: e.exch_id,
+                            initiator: matches!(e.role, Role::Initiator(_)),
+                            accept_pending: matches!(
+                                e.role,
+                                Role::Responder(
+                                    crate::transport::exchange::ResponderState::AcceptPending
+                                )
+                            ),
+                            dropped: e.role.is_dropped_state(),
+                            retrans_pending: e.mrp.is_retrans_pending(),
+                            retrans_ctr: e.mrp.retrans.as_ref().map(|r| r.get_msg_ctr()),
+                            ack_pending: e.mrp.is_ack_pending(),
+                        })
+                    })
+                    .collect(),
+            }
+        }
+    }
+
+    impl Sessions {
+        /// Snapshot of all sessions, in table order.
+        pub fn verif_snapshot(&self) -> std::vec::Vec<VerifSession> {
+            self.sessions.iter().map(|s| s.verif_snapshot()).collect()
+        }
+
+        /// `(next value of the global group data counter, persisted boundary)`
+        #[cfg(feature = "groups")]
+        pub fn verif_group_data_ctr(&self) -> (u32, u32) {
+            (self.global_group_data_ctr, self.group_data_ctr_boundary)
+        }
+
+        /// Thin public wrapper around the crate-private group counter reservation.
+        #[cfg(feature = "groups")]
+        pub fn verif_reserve_group_data_ctr<C: Crypto>(
+            &mut self,
+            crypto: C,
+        ) -> Result<(u32, Option<u32>), Error> {
+            self.reserve_global_group_data_ctr(crypto)
+        }
+    }
+}
+
 impl Default for Sessions {
     fn default() -> Self {
         Self::new()
